@@ -97,6 +97,7 @@ def run(tier, seed, replay=None):
             # local solver settings: default (dense local solves for these sizes) or forced GMRES with short cycles, so that restarts happen
             lk = rng.choice([{}, {}, {"max_full": 0}, {"max_full": 0, "local_iterations": rng.choice([4, 6, 10]), "resets": rng.choice([6, 10])}])
             if i in (9, 11): lk = {"max_full": 0, "local_iterations": 6, "resets": 10}
+            if i % 4 == 2 and kind != "diagdom-badly-scaled": lk = dict(lk, kick2=rng.choice([1, 2]))      # the documented second enrichment (random columns added to the residual basis)
             if kind == "diagdom-badly-scaled": lk = {}                 # default local solver settings: 24 unpreconditioned GMRES steps are no contract on a local system of condition 1e6
             desc = {"routine": which, "N": N, "family": kind, "eps": eps, "preconditioner": prec, "guess": guess is not None, "guess_kind": gk, "torch_seed": sd, "local": lk}
             key = "amen_solve %s prec=%s%s%s" % (kind, prec, " gmres-restarts" if "resets" in lk else (" gmres" if lk else ""), " orthogonal-guess" if gk.startswith("orth") else "")
